@@ -199,6 +199,6 @@ class BLOB(Element):
         )
 
     def set_value_from_message(self, msg):
-        blob_value = values.BLOB.from_base64(msg.value, msg.format)
+        blob_value = values.BLOB.from_base64(msg.value or "", msg.format)
         assert int(msg.size) == blob_value.size
         self.set_value(blob_value)
